@@ -226,6 +226,39 @@ theorem role_rejected_unchanged {A : Type} [DecidableEq A] (s : St (List Nat) A)
 
 end
 
+/-- **An update rewrites the whole field**: after ANY history of name updates on one record (accepted and rejected ones, names of
+any lengths in any order, starting from any stored bytes) the stored field is exactly the encoding of the LAST accepted name —
+nothing of an earlier, longer name survives — or the original bytes if none was accepted. -/
+theorem update_rewrites_whole_field (names : List (List Nat)) : ∀ stored : List Nat,
+    RoleNames.tcRun stored names = (match RoleNames.lastOk names with | some b => b | none => stored) := by
+  induction names with
+  | nil => intro st; rfl
+  | cons n ns ih =>
+    intro st
+    simp only [RoleNames.tcRun, RoleNames.lastOk, ih]
+    cases h : RoleNames.lastOk ns with
+    | some b => rfl
+    | none =>
+      simp only [RoleNames.tcStep]
+      cases toBytes 32 n <;> rfl
+
+/-- hence after any history the name read back is exactly the last accepted name. -/
+theorem update_reads_back_last_accepted (stored : List Nat) (names : List (List Nat)) (n : List Nat)
+    (hv : utf8Valid n = true) (hlen : n.length ≤ 32) (hnul : 0 ∉ n) :
+    fromBytes 32 (RoleNames.tcRun stored (names ++ [n])) = .ok n := by
+  have hb := (toBytes_ok_iff 32 n _).2 ⟨hlen, hnul, rfl⟩
+  have hl : RoleNames.lastOk (names ++ [n]) = some (n ++ List.replicate (32 - n.length) 0) := by
+    induction names with
+    | nil => simp [RoleNames.lastOk, hb]
+    | cons x xs ih => simp [RoleNames.lastOk, ih]
+  rw [update_rewrites_whole_field, hl]
+  exact roundtrip hv hb
+
+-- a long name followed by an accepted shorter one: nothing of the longer name survives (seed C35-3 shape)
+example : RoleNames.tcRun (List.replicate 32 0) [[0x41, 0x42, 0x43, 0x44, 0x45, 0x46], [0x78, 0x79]] = [0x78, 0x79] ++ List.replicate 30 0 ∧
+    fromBytes 32 (RoleNames.tcRun (List.replicate 32 0) [[0x41, 0x42, 0x43, 0x44, 0x45, 0x46], [0x78, 0x79]]) = .ok [0x78, 0x79] := by decide
+example : fromBytes 32 (RoleNames.tcRun (List.replicate 32 0) [[0x41, 0x42, 0x43], List.replicate 33 0x5a, [0x41, 0, 0x42]]) = .ok [0x41, 0x42, 0x43] := by decide
+
 -- a role name that fills the 32-byte field exactly: enable → grant → has → disable all work
 example : RoleNames.scenario (List.replicate 32 0x41) = ["ok", "PermissionDenied", "ok", "1", "ok",
     "PreconditionsAreNotMet", "ok", "1", "ok", "PermissionDenied"] := by decide
